@@ -4,7 +4,7 @@
 //!
 //! One case per line, `key=value` tokens:
 //!   mode=b|t  n=<u32|->  s=<u32|->  T=<threads>  min=<secs:nanos|->  max=<secs:nanos|->  skip=<0|1|->
-//!   f=<tsc frequency>  p=<precision picos>  oh=<loop,alloc,dealloc,realloc picos>  ic=<0|1 per-input counter>
+//!   f=<tsc frequency>  p=<precision picos>  oh=<loop,alloc,dealloc,realloc picos>  ic=<4 bits: per-input counter of kind bytes,chars,cycles,items; `1` = items only>
 //!   g=<gen cost> c=<call cost> d=<drop cost>  (ticks per iteration)
 //!   ja=<jitter amplitude> js=<jitter seed>  grow=<extra call cost per round index>  skew=<extra call cost per thread index>
 //!   off=<o0,o1,..>  initial counter value per thread
@@ -15,7 +15,7 @@
 //! Output: `ok K=.. sizes=.. calls=.. rag=.. fs=.. dur=.. ai=.. cnt=.. ss=.. si=.. | vt=.. init=.. h=..`
 //! (`ai`: per recorded sample with allocation info `index:allocs:alloc_bytes:deallocs:grows:shrinks`)
 //! Everything before ` | ` is compared with the model; `h` is the recorded
-//! history (per round, per thread `start:end:counter_total:allocations`) which is fed to it.
+//! history (per round, per thread `start:end:bytes/chars/cycles/items totals:allocations`) which is fed to it.
 
 use std::cell::RefCell;
 use std::sync::atomic::{AtomicU64, Ordering};
@@ -23,12 +23,13 @@ use std::sync::Mutex;
 use std::time::Duration;
 
 use divan::__verif as v;
-use divan::counter::ItemsCount;
+use divan::counter::{BytesCount, CharsCount, CyclesCount, ItemsCount};
 
 #[global_allocator]
 static ALLOC: divan::AllocProfiler = divan::AllocProfiler::system();
 
 const EV_GEN: u8 = v::ev::USER;
+const EV_GEN2: u8 = v::ev::USER + 3;
 const EV_CALL: u8 = v::ev::USER + 1;
 const EV_DROP: u8 = v::ev::USER + 2;
 
@@ -111,7 +112,8 @@ fn enter<R>(phase: u8, f: impl FnOnce(&Script, u64, u64, u32) -> R) -> R {
 }
 
 struct Inp {
-    v: u64,
+    /// what this input counts as, per kind (bytes, chars, cycles, items)
+    v: [u64; 4],
 }
 
 impl Drop for Inp {
@@ -123,8 +125,13 @@ impl Drop for Inp {
 }
 
 fn gen_input() -> Inp {
-    let (cost, val) = enter(0, |s, r, i, t| (s.g, mix(s.js ^ (r << 20) ^ ((t as u64) << 50) ^ i) % 1000));
-    v::log_event(EV_GEN, val, 0);
+    let (cost, val) = enter(0, |s, r, i, t| {
+        let base = mix(s.js ^ (r << 20) ^ ((t as u64) << 50) ^ i);
+        // items keeps the historic value; the other kinds get their own
+        (s.g, [mix(base ^ 1) % 1000, mix(base ^ 2) % 777, mix(base ^ 3) % 50, base % 1000])
+    });
+    v::log_event(EV_GEN, val[0], val[1]);
+    v::log_event(EV_GEN2, val[2], val[3]);
     v::vclock_advance(cost);
     Inp { v: val }
 }
@@ -191,7 +198,7 @@ fn run_case(line: &str) -> String {
     let mut freq = 1_000_000_000_000u64;
     let mut prec = 1u128;
     let mut oh = [0u128; 4];
-    let mut ic = false;
+    let mut ic = [false; 4];
     let mut sc = Script { budget: 60_000, max_rounds: 1_200, ..Script::default() };
     for tok in hxlib::toks(line) {
         let Some((k, val)) = tok.split_once('=') else { panic!("bad token {tok}") };
@@ -209,7 +216,16 @@ fn run_case(line: &str) -> String {
                 let l: Vec<u128> = val.split(',').map(|x| x.parse().expect("oh")).collect();
                 oh = [l[0], l[1], l[2], l[3]];
             }
-            "ic" => ic = val == "1",
+            "ic" => {
+                ic = match val {
+                    "0" => [false; 4],
+                    "1" => [false, false, false, true],
+                    _ => {
+                        let b: Vec<bool> = val.chars().map(|c| c == '1').collect();
+                        [b[0], b[1], b[2], b[3]]
+                    }
+                }
+            }
             "g" => sc.g = val.parse().expect("g"),
             "c" => sc.c = val.parse().expect("c"),
             "d" => sc.d = val.parse().expect("d"),
@@ -252,7 +268,10 @@ fn run_case(line: &str) -> String {
             &v::RunConfig { options: &options, threads, is_test, tsc_frequency: Some(freq), compute_stats: true },
             &|bencher| {
                 let b = bencher.with_inputs(gen_input);
-                let b = if ic { b.input_counter(|x: &Inp| ItemsCount::new(x.v)) } else { b };
+                let b = if ic[0] { b.input_counter(|x: &Inp| BytesCount::new(x.v[0])) } else { b };
+                let b = if ic[1] { b.input_counter(|x: &Inp| CharsCount::new(x.v[1])) } else { b };
+                let b = if ic[2] { b.input_counter(|x: &Inp| CyclesCount::new(x.v[2])) } else { b };
+                let b = if ic[3] { b.input_counter(|x: &Inp| ItemsCount::new(x.v[3])) } else { b };
                 b.bench_refs(call);
             },
         )
@@ -276,12 +295,12 @@ fn run_case(line: &str) -> String {
         start: u64,
         end: Option<u64>,
         calls: u64,
-        ctotal: u128,
+        ctotal: [u128; 4],
         allocs: u64,
     }
     let mut init: Option<u64> = None;
     let mut per: Vec<Vec<Round>> = vec![Vec::new(); threads];
-    let mut pending_ct: Vec<u128> = vec![0; threads];
+    let mut pending_ct: Vec<[u128; 4]> = vec![[0; 4]; threads];
     let mut gen_seen: Vec<bool> = vec![false; threads];
     let mut stray_calls: Vec<u64> = vec![0; threads];
     let mut bad = false;
@@ -310,7 +329,12 @@ fn run_case(line: &str) -> String {
             },
             EV_GEN => {
                 gen_seen[t] = true;
-                pending_ct[t] += e.a as u128;
+                pending_ct[t][0] += e.a as u128;
+                pending_ct[t][1] += e.b as u128;
+            }
+            EV_GEN2 => {
+                pending_ct[t][2] += e.a as u128;
+                pending_ct[t][3] += e.b as u128;
             }
             EV_CALL => match per[t].last_mut() {
                 Some(r) if r.end.is_none() => {
@@ -341,7 +365,10 @@ fn run_case(line: &str) -> String {
         let mut row = Vec::new();
         for t in 0..threads {
             if let Some(x) = per[t].get(r) {
-                row.push(format!("{}:{}:{}:{}", x.start, x.end.unwrap_or(0), x.ctotal, x.allocs));
+                row.push(format!(
+                    "{}:{}:{}/{}/{}/{}:{}",
+                    x.start, x.end.unwrap_or(0), x.ctotal[0], x.ctotal[1], x.ctotal[2], x.ctotal[3], x.allocs
+                ));
             }
         }
         h.push(row.join(","));
@@ -363,7 +390,7 @@ fn run_case(line: &str) -> String {
             "{}:{}:{}:{}:{}:{}",
             i, a.tallies[2].0, a.tallies[2].1, a.tallies[3].0, a.tallies[0].0, a.tallies[1].0
         ))),
-        join(dump.counts[3].iter()),
+        (0..4).map(|k| join(dump.counts[k].iter())).collect::<Vec<_>>().join("/"),
         stats.map_or("-".to_string(), |s| s.sample_count.to_string()),
         stats.map_or("-".to_string(), |s| s.iter_count.to_string()),
         vt,
@@ -372,8 +399,144 @@ fn run_case(line: &str) -> String {
     )
 }
 
+// ---------------------------------------------------------------------------
+// C03 end to end: run the real benchmark binary `hx-loop-e2e` (src/e2e.rs)
+// ---------------------------------------------------------------------------
+
+/// tag -> path below the crate
+fn e2e_path(tag: &str) -> String {
+    let rel = match tag {
+        "g_4_2_t12" | "g_3_2_t234" => format!("grp::{tag}"),
+        _ => tag.to_string(),
+    };
+    format!("hx_loop_e2e::{rel}")
+}
+
+/// Case: `bench=<tag> via=<cli|env|attr|attr+cli-n> mode=<b|t> n=<n|-> s=<s> threads=<a,b,..>` (the
+/// effective values; `via` says where they are given).  Output: per thread
+/// count `t=T samples=.. iters=.. calls=<per thread index>` joined by `;`.
+fn run_e2e(line: &str) -> String {
+    use std::collections::BTreeMap;
+    use std::process::{Command, Stdio};
+    let mut d = BTreeMap::new();
+    for tok in hxlib::toks(line) {
+        if let Some((k, v)) = tok.split_once('=') {
+            d.insert(k, v);
+        }
+    }
+    let get = |k: &str| d.get(k).copied().unwrap_or("-");
+    let exe = std::env::current_exe().expect("exe").with_file_name("hx-loop-e2e");
+    let mut cmd = Command::new(exe);
+    for (k, _) in std::env::vars() {
+        if k.starts_with("DIVAN_") || k == "NEXTEST" {
+            cmd.env_remove(k);
+        }
+    }
+    cmd.env("NO_COLOR", "1");
+    cmd.arg(if get("mode") == "t" { "--test" } else { "--bench" }).arg("--exact").arg(e2e_path(get("bench")));
+    match get("via") {
+        "cli" => {
+            if get("n") != "-" {
+                cmd.arg("--sample-count").arg(get("n"));
+            }
+            cmd.arg("--sample-size").arg(get("s")).arg("--threads").arg(get("threads"));
+        }
+        "env" => {
+            if get("n") != "-" {
+                cmd.env("DIVAN_SAMPLE_COUNT", get("n"));
+            }
+            cmd.env("DIVAN_SAMPLE_SIZE", get("s")).env("DIVAN_THREADS", get("threads"));
+        }
+        "attr+cli-n" => {
+            cmd.arg("--sample-count").arg(get("n"));
+        }
+        _ => {}
+    }
+    let mut child = cmd.stdout(Stdio::piped()).stderr(Stdio::piped()).spawn().expect("spawn hx-loop-e2e");
+    // read both pipes on helper threads so that the child never blocks on a full pipe; 60 s watchdog
+    use std::io::Read;
+    let mut so = child.stdout.take().expect("stdout");
+    let mut se = child.stderr.take().expect("stderr");
+    let h_out = std::thread::spawn(move || {
+        let mut b = String::new();
+        let _ = so.read_to_string(&mut b);
+        b
+    });
+    let h_err = std::thread::spawn(move || {
+        let mut b = String::new();
+        let _ = se.read_to_string(&mut b);
+        b
+    });
+    let t0 = std::time::Instant::now();
+    let status = loop {
+        match child.try_wait().expect("wait") {
+            Some(st) => break st,
+            None if t0.elapsed().as_secs() > 60 => {
+                let _ = child.kill();
+                let _ = child.wait();
+                return "watchdog".to_string();
+            }
+            None => std::thread::sleep(std::time::Duration::from_millis(2)),
+        }
+    };
+    let stdout = h_out.join().unwrap_or_default();
+    let stderr = h_err.join().unwrap_or_default();
+    if !status.success() {
+        return format!("crash rc={}", status.code().unwrap_or(-1));
+    }
+    let threads: Vec<usize> = get("threads").split(',').map(|t| t.parse().expect("threads")).collect();
+    // table rows: `<tree> name  fastest │ slowest │ median │ mean │ samples │ iters`
+    let mut figures: BTreeMap<usize, (String, String)> = BTreeMap::new();
+    for l in stdout.lines() {
+        let cells: Vec<&str> = l.split('│').map(|c| c.trim()).collect();
+        if cells.len() < 6 || cells[4].is_empty() || !cells[4].chars().all(|c| c.is_ascii_digit()) {
+            continue;
+        }
+        let name = cells[0].trim_start_matches(|c: char| "│├╰─ ".contains(c)).split(' ').next().unwrap_or("");
+        let t = match name.strip_prefix("t=") {
+            Some(n) => n.parse().ok(),
+            None if threads.len() == 1 => Some(threads[0]),
+            None => None,
+        };
+        if let Some(t) = t {
+            figures.insert(t, (cells[4].to_string(), cells[5].to_string()));
+        }
+    }
+    // stderr: `RUN tag` once per thread count (ascending), `CALL tag <thread index>` per call
+    let mut runs: Vec<BTreeMap<usize, u64>> = Vec::new();
+    for l in stderr.lines() {
+        let tok: Vec<&str> = l.split(' ').collect();
+        if tok[0] == "RUN" {
+            runs.push(BTreeMap::new());
+        } else if tok[0] == "CALL" && tok.len() == 3 {
+            if let (Some(cur), Ok(i)) = (runs.last_mut(), tok[2].parse::<usize>()) {
+                *cur.entry(i).or_insert(0) += 1;
+            }
+        }
+    }
+    let mut rows = Vec::new();
+    for (i, &t) in threads.iter().enumerate() {
+        let (sa, it) = match figures.get(&t) {
+            Some((a, b)) if get("mode") != "t" => (a.clone(), b.clone()),
+            _ => ("-".to_string(), "-".to_string()),
+        };
+        let empty = BTreeMap::new();
+        let calls = runs.get(i).unwrap_or(&empty);
+        let hi = calls.keys().copied().max().map_or(t, |m| (m + 1).max(t));
+        rows.push(format!(
+            "t={t} samples={sa} iters={it} calls={}",
+            join((0..hi).map(|k| calls.get(&k).copied().unwrap_or(0)))
+        ));
+    }
+    if runs.len() != threads.len() {
+        rows.push(format!("runs={}", runs.len()));
+    }
+    rows.join(";")
+}
+
 fn dispatch(mode: &str, line: &str) -> String {
     match mode {
+        "c03e2e" => run_e2e(line),
         "c03" | "c04" | "c19" | "loop" => run_case(line),
         _ => panic!("unknown mode {mode}"),
     }
